@@ -577,6 +577,11 @@ func runParent(prop, tier string) int {
 		} else {
 			confirmed = strings.Contains(outs, "REPLAY-SIGNATURE "+s+"\n")
 		}
+		if !confirmed && strings.Contains(s, ".slow|") {
+			// a time budget that is not exceeded again in a fresh process is not a finding (DESIGN §4 rule 5)
+			fmt.Printf("TIMING-NOT-REPRODUCED property=%s signature=%q: ignored\n", prop, s)
+			continue
+		}
 		if !confirmed {
 			fmt.Printf("NONDETERMINISTIC property=%s signature=%q replay=%s did not reproduce in a fresh process\n%s\n", prop, s, v.replay, tail(outs, 1500))
 			exit = exitInfra
